@@ -122,7 +122,9 @@ def _kwargs(proc):
     if proc == "gaussian-tight":
         return dict(solver=cp.CLARABEL, tol_gap_abs=1e-10, tol_gap_rel=1e-10, tol_feas=1e-10)
     if proc == "minimize_variance":
-        return dict(solver=cp.CLARABEL)
+        # high accuracy: the intensities of the (unique) variance optimum are compared between batch sizes, and at the
+        # solver's default accuracy they differ by up to 5e-3 of the bound range between two runs (flat objective)
+        return dict(solver=cp.CLARABEL, tol_gap_abs=1e-9, tol_gap_rel=1e-9, tol_feas=1e-9)
     return {}
 
 
@@ -236,11 +238,22 @@ def chk_grid(inp, c):
                       "with a batch every sample meets its own total-intensity request (within l1_eps)",
                       mechanism="batch-l1-request:minimize_variance", worst=float(np.max(np.abs(tot - L1))), bs=str(bs), N=N)
         if np.all(np.abs(Mt) > 1e-9):
-            # strictly convex variance objective (all variances positive): the optimum is unique, intensities must agree
-            dx = np.max(np.abs(Xb - Xr) / (ubv - lbv), axis=1)
-            c.margin("minimize_variance: |x(bs) - x(1)| / range / tol_x", float(np.max(dx)), TOL_X_MV)
-            c.require(np.all(dx <= TOL_X_MV), "unique variance optimum: same intensities as with batch size one",
-                      mechanism="batch-mismatch-X:minimize_variance", dev=float(np.max(dx)), bs=str(bs), N=N)
+            # strictly convex variance objective (all variances positive): the optimum is unique GIVEN the error bound
+            # "error of a preliminary ordinary fit + l2_eps".  That preliminary fit is made at the default solver accuracy
+            # and its error differs by up to ~1e-4 between two runs; the variance optimum sits on the bound and moves with
+            # it (5e-3 of the range seen for a bound shift of 7e-5).  Rows are compared where both runs ended on the
+            # same bound (realised errors equal within 1e-6); the others are counted, not judged.
+            wv = np.ones(m) if inp["W"] is None else np.asarray(inp["W"], float)
+            er = np.linalg.norm((Br - B) * wv, axis=1)
+            eb = np.linalg.norm((Bb - B) * wv, axis=1)
+            same_bound = np.abs(er - eb) <= 1e-6 * (1.0 + scale)
+            c.cell("mv-x-compared" if np.any(same_bound) else "mv-x-not-comparable")
+            if np.any(same_bound):
+                dx = np.max(np.abs(Xb - Xr) / (ubv - lbv), axis=1)[same_bound]
+                c.margin("minimize_variance: |x(bs) - x(1)| / range / tol_x", float(np.max(dx)), TOL_X_MV)
+                c.require(np.all(dx <= TOL_X_MV), "unique variance optimum: same intensities as with batch size one",
+                          mechanism="batch-mismatch-X:minimize_variance", dev=float(np.max(dx)), bs=str(bs), N=N,
+                          rows_compared=int(np.sum(same_bound)))
     c.nontrivial(N >= 2)
     c.note("grid_point", {"N": N, "batch_size": str(bs), "proc": proc})
     c.note("max_dev_vs_batch1", float(np.max(dev)))
